@@ -110,6 +110,36 @@ class Ctx:
             return '.' + fn.attr, None
         return None, None
 
+    def param_values(self, callee, pname):
+        """constant values passed for parameter `pname` at the remaining call sites of a (private) dsw function"""
+        vals, unknown = set(), False
+        for fq, lst in self.calls().items():
+            for nd, c, cal, q in lst:
+                if cal is not callee:
+                    continue
+                f = self.p.funcs[fq]
+                a = None
+                if pname in callee.positional:
+                    i = callee.positional.index(pname)
+                    if i < len(c.args):
+                        a = c.args[i]
+                for k in c.keywords:
+                    if k.arg == pname:
+                        a = k.value
+                if a is None:
+                    d = callee.defaults.get(pname)
+                    if isinstance(d, ast.Constant):
+                        vals.add(d.value)
+                    else:
+                        unknown = True
+                    continue
+                t = f.term(a, nd)
+                if t[0] == 'c':
+                    vals.add(t[1])
+                else:
+                    unknown = True
+        return vals, unknown
+
     def closure(self, *fqs):
         """functions reachable from the given entry points through resolved dsw calls"""
         calls = self.calls()
